@@ -1,7 +1,10 @@
 """
 C10 — polynomial classes return exact functions and exact Abel transforms.
 
-proofs : lean/PyAbel/Props/C10.lean (shift/stretch coefficient transform for every degree, r₀, s ≠ 0; Angular product =
+proofs : lean/PyAbel/Props/C10.lean (polynomial_abel / polynomial_abel_shifted: `Polynomial.abel` — the coefficient recursion and the
+         Horner sum of a(k) — is the Abel integral of `Polynomial.func` for every degree, piece, shift, stretch and sample inside the
+         outer radius, by the reduction formula of ∫ rᵏ dy (Lemmas/AbelPoly.lean, PolyAbel.lean);
+         shift/stretch coefficient transform for every degree, r₀, s ≠ 0; Angular product =
          polynomial product; cossin(m, n) coefficients)
 K      : Polynomial(...).func vs Horner evaluation of the Lean-transformed coefficients; Angular products / cossin vs model
 S      : func = polynomial on [r_min, r_max), 0 outside; abel = line-of-sight quadrature of that function (scipy quad),
@@ -47,6 +50,16 @@ def correspondence(ck, tier):
         scale = np.abs(c) @ np.abs(((np.abs(r).max() + abs(r0)) / abs(s)) ** np.arange(K + 1)) + 1e-300
         if np.abs(p.func - want).max() > 1e-11 * scale:
             ck.disagree("K.polynomial", case, f"Polynomial.func differs from the Lean-transformed coefficients by {np.abs(p.func - want).max():.3g}")
+        # the closed-form transform: Lean `polyAbelAt` (the model `polynomial_abel` is about) on the transformed coefficients
+        idx = [i for i in range(len(r)) if r[i] < rmax]
+        if idx and rmax > 0:
+            pick = sorted({idx[0], idx[-1], *(int(v) for v in rng.choice(idx, size=min(4, len(idx)), replace=False))})
+            rep_ = drive([f"polyabel {f2h(max(rmin, 0.0))} {f2h(rmax)} {f2h(float(r[i]))} {arr2h(mc)}" for i in pick])
+            ma = np.array([h2arr(t.split()[3:])[0] for t in rep_])
+            ascale = scale * max(1.0, rmax)
+            if np.abs(ma - p.abel[pick]).max() > 1e-11 * ascale:
+                ck.disagree("K.polynomial", dict(case, samples=[float(r[i]) for i in pick]),
+                            f"Polynomial.abel differs from the Lean closed form by {np.abs(ma - p.abel[pick]).max():.3g} (terms ~{ascale:.3g})")
     for _ in range(n // 2):
         a, b = rng.normal(size=int(rng.integers(1, 7))), rng.normal(size=int(rng.integers(1, 7)))
         ck.count(("K.angular", len(a), len(b)), suite="K.angular")
